@@ -93,6 +93,17 @@ LEAF_IS_TENSOR = {"var": True, "const": True, "inttensor": True, "array": False,
 # --------------------------------------------------------------------------------------- REF run
 
 
+def _real_cast(x):
+    """complex array with x's real part, zero imaginary part and x's memory layout class (axis order and broadcast
+    (zero-stride) axes kept, so that NumPy's K-order output layouts agree between the real and the complex run)"""
+    x = np.asarray(x)
+    if x.ndim == 0 or 0 in x.shape:
+        return x.real.astype(np.complex128)
+    core = x[tuple(slice(0, 1) if (s == 0 and n > 1) else slice(None) for s, n in zip(x.strides, x.shape))]
+    out = core.real.astype(np.complex128)
+    return np.broadcast_to(out, x.shape) if out.shape != x.shape else out
+
+
 class RefRun:
     """Executes a program on NumPy arrays; see module docstring."""
 
@@ -208,6 +219,9 @@ class RefRun:
     def _op(self, idx, st):
         od = OPS[st["op"]]
         args = [self.env[a] for a in st["args"]]
+        if self.cplx and not od.view:
+            # a constant never transmits a gradient: its consumers read its real part
+            args = [_real_cast(x) if self.const[a] else x for x, a in zip(args, st["args"])]
         res = od.ref(args, st.get("p", {}))
         res = np.asarray(res)
         if od.view and not st["op"].startswith("atleast_") and any(res is a for a in args):
@@ -248,8 +262,9 @@ class RefRun:
                 self.flagmixed.add(h)
         if self.cplx and const and parent is None:
             res = res.real.astype(np.complex128)
-        elif self.cplx and const and parent is not None and not self.const[parent]:
-            # constant view of a non-constant tensor: no gradient flows through it
+        elif self.cplx and const and parent is not None and not self.const[parent] and self.flag_views == "grad":
+            # constant view of a non-constant tensor: no gradient flows through it (in "memory" mode the view is kept -
+            # writes through it must reach the base - and its consumers read its real part, see above)
             res = res.real.astype(np.complex128)
         if self.cplx and res.dtype != np.complex128:
             res = res.astype(np.complex128)
@@ -270,8 +285,15 @@ class RefRun:
         tgt = self.env[t]
         o = self.owner[t]
         vals = [self.env[a] for a in st.get("args", [])]
-        if self.cplx and self.const[t]:
-            vals = [v.real.astype(np.complex128) for v in vals]
+        if self.cplx:
+            # the written memory belongs to the owner: nothing flows into a constant owner, and constant operands
+            # transmit nothing
+            vals = [_real_cast(v) if (self.const[o] or self.const[a]) else v
+                    for v, a in zip(vals, st.get("args", []))]
+            if self.flag_views == "memory-sever" and self.const[t] and not self.const[o] and kind != "shape":
+                # model of a recorded finding (known_findings.json, C05-write-through-constant-view): a write through
+                # a constant-flagged view detaches the old contents of the view's whole region from the graph
+                tgt[...] = _real_cast(tgt)
         p = st.get("p", {})
         if kind == "setitem":
             tgt[dec_index(p["index"])] = vals[0]
@@ -482,11 +504,11 @@ class Expected:
         self.lenient = set()
 
 
-def expected_after_backward(prog, L, seed=None, upto=None, max_elems=400):
+def expected_after_backward(prog, L, seed=None, upto=None, max_elems=400, flag_views="grad"):
     """Runs REF (real) for values/model, then complex-step per element of every non-constant
     memory owner that L depends on.  `upto`: index of the backward statement (program prefix)."""
     klog = R.KinkLog()
-    real = RefRun(prog, cplx=False, kinklog=klog, stop_at=upto).run()
+    real = RefRun(prog, cplx=False, kinklog=klog, stop_at=upto, flag_views=flag_views).run()
     exp = Expected()
     exp.ref = real
     exp.kinks = list(klog.kinks)
@@ -512,7 +534,7 @@ def expected_after_backward(prog, L, seed=None, upto=None, max_elems=400):
             raise HarnessError("program too large for complex-step budget")
         gr = np.zeros(n)
         for kk in range(n):
-            c = RefRun(prog, cplx=True, perturb=(o, kk, real.last_write[o]), stop_at=upto).run()
+            c = RefRun(prog, cplx=True, perturb=(o, kk, real.last_write[o]), stop_at=upto, flag_views=flag_views).run()
             exp.ncomplex += 1
             val = np.sum(g * c.env[L])
             gr[kk] = val.imag / H
